@@ -143,4 +143,72 @@ theorem inv_of_reachable {P : Params} (hP : P.Valid) {σ : Sys P} (h : Reachable
 /-- the Layer-A context of a system state: f, the Byzantine set, the ghost trace -/
 def ctxOf {P : Params} (hP : P.Valid) (σ : Sys P) : QAbs.Ctx (Op P) := ctxT P hP σ.trace
 
+/-! ### the returned decided message is a reported decision -/
+
+theorem outEvents_decided {N : Type} (i : N) (l : List Out) (d : Msg) (h : Out.bcastDecided d ∈ l) :
+    Ev.D i d.round d.fullData ∈ outEvents i l := by
+  induction l with
+  | nil => simp at h
+  | cons o rest ih =>
+    rcases List.mem_cons.1 h with h | h
+    · subst h; simp [outEvents]
+    · have := ih h
+      cases o <;> simp [outEvents, this]
+
+/-- `Controller.ProcessMsg` returns a decided message only through `UponDecided`, or together with a decided broadcast -/
+theorem processMsg_returns (cfg : Cfg) (c : Ctrl) (m d : Msg) (h : (c.processMsg cfg m).res = .ok (some d)) :
+    isDecidedMsg cfg m = true ∨ Out.bcastDecided d ∈ (c.processMsg cfg m).outs := by
+  unfold Ctrl.processMsg at h ⊢
+  split at h
+  · simp at h
+  · rename_i hid
+    rw [if_neg hid]
+    split at h
+    · rename_i hd; exact Or.inl hd
+    · rename_i hnd
+      rw [if_neg hnd]
+      split at h
+      · simp at h
+      · rename_i hf
+        rw [if_neg hf]
+        right
+        unfold uponExistingInstanceMsg at h ⊢
+        split at h
+        · simp at h
+        · rename_i inst hfi
+          simp only [hfi]
+          cases hr : (processMsg cfg inst m).res with
+          | panic => simp [hr] at h
+          | err t => simp [hr] at h
+          | ok dec v agg =>
+            simp only [hr] at h ⊢
+            cases dec with
+            | false => simp at h
+            | true =>
+              cases agg with
+              | none => simp at h
+              | some a =>
+                simp only [Bool.not_true, Bool.false_eq_true, if_false] at h ⊢
+                split at h
+                · simp at h
+                · simp only [COutcome.ok.injEq, Option.some.injEq] at h
+                  subst h
+                  split <;> simp
+
+/-- observation point 1: whenever `Controller.ProcessMsg(m)` of operator i returns a decided message d, the decision
+    (d.round, d.fullData) is reported in the resulting state -/
+theorem returned_reported {P : Params} (σ : Sys P) (i : Op P) (m d : Msg)
+    (h : ((σ.ctrl i).processMsg (P.cfg i) m).res = .ok (some d)) : reported (step σ (.deliver i m)) i d.fullData := by
+  refine ⟨d.round, ?_⟩
+  show Ev.D i d.round d.fullData ∈ σ.trace ++ deliverEvents (P.cfg i) P.height i (σ.ctrl i) ((σ.ctrl i).processMsg (P.cfg i) m) m
+  apply List.mem_append_right
+  unfold deliverEvents
+  rcases processMsg_returns _ _ _ _ h with hd | ho
+  · apply List.mem_append_right
+    rw [hd, h]
+    simp
+  · apply List.mem_append_left
+    apply List.mem_append_right
+    exact outEvents_decided i _ d ho
+
 end Ssv.Qbft.B
